@@ -1,4 +1,5 @@
 import EupsModel.Lemmas.FsEff
+import EupsModel.Lemmas.FsTab
 /-! C08 — an interrupted update never corrupts or loses existing declarations.  Property theorems only
 (model: `Model/FsEff.lean`, helper lemmas: `Lemmas/FsEff.lean`).
 
@@ -130,5 +131,82 @@ example :
                                              (.main (.cfile 0 0), .complete (.chain [⟨0, 0, false⟩]))] }
     (effects {} fs (.declare 0 1 0 (some 0) false)).length = 9 ∧
     RPath.vfile 0 0 ∉ targets fs (.declare 0 1 0 (some 0) false) := by decide
+
+/-! ## Database-held table files (`Model/FsTab.lean`)
+
+`Db` = the record store beside the store of interned table files; `Cmd2` = the commands above (`plain c`) and
+`declareTab p v f tag n` = a forced declaration that hands the table file over as a stream with content `n`, which
+`Eups.declare` copies into the database *after* the records (`utils.copyfile`; repaired, D47: copy beside the
+destination and rename; pinned: unlink, then copy in place).  `crashAt2` is the state a kill before effect `k` leaves;
+its record component is exactly `crashAt` of the command's record part (`C08_tables_records`), so every theorem above
+holds verbatim for the extended commands. -/
+
+/-- The record component of every crash state of an extended command is the crash state of its record part; in
+particular frame, commit points, old-or-new, never-garbled and reader-total carry over. -/
+theorem C08_tables_records (cfg : Cfg) (db : Db) (c : Cmd2) (k : Nat) :
+    (crashAt2 cfg db c k).fs = crashAt cfg db.fs c.onRecords k :=
+  crashAt2_fs cfg db c k
+
+/-- **Frame for table files** (both writers): at every crash point of every command, every table file other than
+the one the command replaces — for a command without a table stream: every table file — reads exactly as before. -/
+theorem C08_table_frame (cfg : Cfg) (db : Db) (c : Cmd2) (k : Nat) (key : TKey)
+    (h : ∀ n, c.tab ≠ some (key, n)) :
+    readTab (crashAt2 cfg db c k) key = readTab db key := by
+  unfold readTab
+  rw [crashAt2_tabs]
+  unfold tabEffects
+  cases hc : c.tab with
+  | none => simp [applyTAll]
+  | some kn =>
+    obtain ⟨k', n⟩ := kn
+    have hne : key ≠ k' := by
+      intro e; subst e; exact h n hc
+    simp only []
+    rw [copy_frame cfg.atomic k' n db.tabs _ (.main key) (by intro e; cases e; exact hne rfl) (by intro e; cases e)]
+
+/-- **The replaced table file is seen old or new** (repaired `copyfile`): at every crash point of a declaration with a
+table stream, the interned table file reads as before the command or holds the new content, never absent, empty or
+truncated unless it was so before. -/
+theorem C08_table_atomic (db : Db) (c : Cmd2) (key : TKey) (n : Nat) (h : c.tab = some (key, n)) (k : Nat) :
+    readTab (crashAt2 { atomic := true } db c k) key = readTab db key ∨
+    readTab (crashAt2 { atomic := true } db c k) key = .content n := by
+  unfold readTab
+  rw [crashAt2_tabs]
+  simp only [tabEffects, h]
+  rcases copy_atomic key n db.tabs (k - (effects { atomic := true } db.fs c.onRecords).length) with e | e
+  · left; rw [e]
+  · right; rw [e]
+
+/-- … and after the completed command it holds the new content. -/
+theorem C08_table_final (db : Db) (c : Cmd2) (key : TKey) (n : Nat) (h : c.tab = some (key, n)) :
+    readTab (crashAt2 { atomic := true } db c (effects2 { atomic := true } db c).length) key = .content n := by
+  unfold readTab
+  rw [crashAt2_tabs]
+  simp only [tabEffects, h, effects2, List.length_append, List.length_map]
+  have : (effects { atomic := true } db.fs c.onRecords).length + (copyEffects true key n).length
+      - (effects { atomic := true } db.fs c.onRecords).length = (copyEffects true key n).length := by omega
+  rw [this, List.take_length, copy_atomic_final]
+
+/-- The pinned `utils.copyfile` (D47, repaired) does not have this property: product `0 0` of flavor `0` is declared
+with an interned table file of content `1` and is redeclared with content `2`; killed after the `unlink` the table
+file of the existing declaration is gone — neither the old nor the new content — and one effect later it is empty. -/
+theorem C08_table_gap_witness :
+    let db : Db := { fs := { dirs := [0], files := [(.main (.vfile 0 0), .complete (.ver [⟨0, false⟩]))] },
+                     tabs := [(.main ⟨0, 0, 0⟩, .full 1)] }
+    let c : Cmd2 := .declareTab 0 0 0 none 2
+    let n1 := (effects { atomic := false } db.fs c.onRecords).length
+    readTab db ⟨0, 0, 0⟩ = .content 1 ∧
+    readTab (crashAt2 { atomic := false } db c (n1 + 1)) ⟨0, 0, 0⟩ = .absent ∧
+    readTab (crashAt2 { atomic := false } db c (n1 + 2)) ⟨0, 0, 0⟩ = .garbled ∧
+    readTab (crashAt2 { atomic := false } db c (n1 + 4)) ⟨0, 0, 0⟩ = .content 2 := by decide
+
+/-- With the repaired `copyfile` the same command leaves the old content until the rename (concrete instance,
+every crash point). -/
+theorem C08_table_gap_repaired :
+    let db : Db := { fs := { dirs := [0], files := [(.main (.vfile 0 0), .complete (.ver [⟨0, false⟩]))] },
+                     tabs := [(.main ⟨0, 0, 0⟩, .full 1)] }
+    let c : Cmd2 := .declareTab 0 0 0 none 2
+    ∀ k, k ≤ (effects2 {} db c).length →
+      readTab (crashAt2 {} db c k) ⟨0, 0, 0⟩ = .content 1 ∨ readTab (crashAt2 {} db c k) ⟨0, 0, 0⟩ = .content 2 := by decide
 
 end EupsModel.C08
